@@ -6,6 +6,8 @@ import (
 	"bytes"
 	"fmt"
 	"reflect"
+	"sort"
+	"strconv"
 	"strings"
 	"unicode/utf8"
 	"unsafe"
@@ -167,8 +169,53 @@ func firstLine(err error) string {
 	return s
 }
 
+// c05Deep: programs close to the parser's nesting limits. input = "<template>:<n>"; what the parser accepts must print as
+// something it accepts again (the printer must not add nesting levels of its own)
+var c05DeepTemplates = map[string]func(n int) string{
+	"arrow":       func(n int) string { return strings.Repeat("x=>", n) + "1" },
+	"arrow-block": func(n int) string { return strings.Repeat("x=>{", n) + strings.Repeat("}", n) },
+	"let-paren":   func(n int) string { return "for(;;)let = " + strings.Repeat("(", n) + "1" + strings.Repeat(")", n) },
+	"paren":       func(n int) string { return "x=" + strings.Repeat("(", n) + "1" + strings.Repeat(")", n) },
+	"block":       func(n int) string { return strings.Repeat("{", n) + strings.Repeat("}", n) },
+	"if":          func(n int) string { return strings.Repeat("if(a)", n) + "b" },
+	"if-else":     func(n int) string { return strings.Repeat("if(a)b;else ", n) + "c" },
+	"array":       func(n int) string { return "x=" + strings.Repeat("[", n) + strings.Repeat("]", n) },
+	"object":      func(n int) string { return "x=" + strings.Repeat("{a:", n) + "1" + strings.Repeat("}", n) },
+	"call":        func(n int) string { return "x=" + strings.Repeat("f(", n) + strings.Repeat(")", n) },
+	"unary":       func(n int) string { return "x=" + strings.Repeat("!", n) + "a" },
+	"cond":        func(n int) string { return "x=" + strings.Repeat("a?b:", n) + "c" },
+	"label":       func(n int) string { return strings.Repeat("l:", 1) + strings.Repeat("for(;;)", n) + ";" },
+	"function":    func(n int) string { return strings.Repeat("function f(){", n) + strings.Repeat("}", n) },
+	"class":       func(n int) string { return strings.Repeat("x=class{m(){", n) + strings.Repeat("}}", n) },
+	"template":    func(n int) string { return "x=" + strings.Repeat("`${", n) + "1" + strings.Repeat("}`", n) },
+	"while":       func(n int) string { return strings.Repeat("while(a)", n) + ";" },
+}
+
+func c05Deep(c *engine.Ctx, in []byte, args map[string]string) {
+	i := strings.IndexByte(string(in), ':')
+	n, _ := strconv.Atoi(string(in[i+1:]))
+	src := c05DeepTemplates[string(in[:i])](n)
+	o := jsOptions(args["opts"])
+	t1, err := jsParseCopy([]byte(src), o)
+	if err != nil {
+		c.Count("deep-rejected", 1)
+		return
+	}
+	c.Count("deep-accepted", 1)
+	s1 := t1.JSString()
+	t2, err := jsParseCopy([]byte(s1), o)
+	if err != nil {
+		c.Fail("printed-text-rejected", fmt.Sprintf("template %s (opts %s, %d bytes) is accepted, but its printed form (%d bytes) does not parse: %v", in, args["opts"], len(src), len(s1), firstLine(err)))
+		return
+	}
+	if s2 := t2.JSString(); s2 != s1 {
+		c.Fail("print-not-stable", fmt.Sprintf("template %s (opts %s): printed, parsed and printed again differs", in, args["opts"]))
+	}
+}
+
 func c05Setup(c *engine.Ctx) {
 	c.Register(&engine.Space{Name: "roundtrip", Run: c05Run})
+	c.Register(&engine.Space{Name: "roundtrip-deep", Run: c05Deep, NoMinimise: true})
 }
 
 var c05Literals = []string{"`a\nb`", "`a\r\nb${c}d\ne`", "`a b`", "'a\\\nb'", "\"a\\\r\nb\"", "/a\\/b/g", "`${`x\ny`}\nz`", "tag`a\nb`", "1.5e3", "0x1F", "'\\u2028'", "`\\\n`", "`\n\n${a}\n`"}
@@ -206,6 +253,27 @@ func c05Work(c *engine.Ctx) {
 				k++
 				if c.Mine(k) {
 					all([]byte(a + sep + b))
+				}
+			}
+		}
+	}
+	// nesting close to the parser's limits
+	{
+		deep := c.SpaceByName("roundtrip-deep")
+		var names []string
+		for name := range c05DeepTemplates {
+			names = append(names, name)
+		}
+		sort.Strings(names)
+		for _, name := range names {
+			for _, n := range []int{1, 2, 10, 100, 332, 333, 334, 498, 499, 500, 501, 990, 995, 996, 997, 998, 999, 1000, 1001, 1002} {
+				k++
+				if !c.Mine(k) {
+					continue
+				}
+				for _, o := range jsOptionNames {
+					c.Exec(deep, []byte(name+":"+strconv.Itoa(n)), map[string]string{"opts": o})
+					c.Count("exec", 1)
 				}
 			}
 		}
